@@ -308,6 +308,26 @@ def run(ck, rng):
             if tag:
                 rep["finding"] = tag
             ck.violation(rep)
+    # several massive calls IN FLIGHT AT ONCE, started by caller goroutines, each with its own writer and its own
+    # single-root document: every call must write exactly what it writes when it runs alone
+    conc_hist = []
+    for j in range(24 if ck.tier == "quick" else 300):
+        its = [(1, b"root_of_call_%d" % j)] + [(2, b"child_%d_%03d" % (j, c)) for c in range(rng.choice([40, 150, 400]))]
+        conc_hist.append("o,%s,0,0,-,-,-,-,-,%s" % (rng.choice("ddj"), hx(spell(its, plain_spelling(its)))))
+    alone, _ = run_impl(exe, ["mhist " + h for h in conc_hist])
+    groups = [list(range(g, min(g + 6, len(conc_hist)))) for g in range(0, len(conc_hist), 6)]
+    together, _ = run_impl(exe, ["mchist " + "#".join(conc_hist[i] for i in grp) for grp in groups] * 3)
+    for gi, res in enumerate(together):
+        grp = groups[gi % len(groups)]
+        parts = res.split("#")
+        ck.case("mchist group %d rep %d" % (gi % len(groups), gi // len(groups)), True)
+        ck.count("concurrent_massive_calls")
+        for k, i in enumerate(grp):
+            if k >= len(parts) or parts[k] != alone[i]:
+                ck.violation({"property": "C10", "kind": "massive_vs_simple", "class": "concurrent_calls", "case": "mchist " + "#".join(conc_hist[x] for x in grp)[:3000],
+                              "got": (parts[k] if k < len(parts) else res)[:300], "expected": alone[i][:300],
+                              "why": "a massive call running at the same time as other massive calls (other writers, other documents) writes something else than when it runs alone"})
+                break
     if not iok:
         return ('instance', iinfo.get('failure', ''))
     return stage_correspondence(ck, rng, exe)
